@@ -1,7 +1,7 @@
 (* C16 — non-vacuity: concrete inputs meeting the hypotheses of the property theorems, and
    instances of the oracle hypotheses. *)
 From GL Require Import Common.Bytes Text.Quote Text.StrLit Text.NumRead Text.NumText Text.Date
-  Text.NumFacts Text.NumLexFacts Text.NumTextFacts Text.DateFacts.
+  Text.NumFacts Text.NumLexFacts Text.NumTextFacts Text.DateFacts Text.RoundFacts Text.CalFacts.
 From Coq Require Import Lia ZifyBool.
 
 (* ---- %q ---- *)
@@ -59,31 +59,6 @@ Example ex_integral : int_of_fval (Fin (-3) 4) = Some (-48) /\ lnumber_string (f
 Proof. split; reflexivity. Qed.
 
 (* ---- the strconv oracle hypotheses of tostring_tonumber are satisfiable ---- *)
-Definition podd (p : positive) : Prop := match p with xO _ => False | _ => True end.
-
-Lemma pos_shift_canon : forall n p, podd p ->
-  pos_odd (Pos.shiftl_nat p n) = p /\ pos_tz (Pos.shiftl_nat p n) = Z.of_nat n /\
-  Zpos (Pos.shiftl_nat p n) = Zpos p * 2 ^ Z.of_nat n.
-Proof.
-  induction n as [|n IH]; intros p Hp.
-  - cbn [Pos.shiftl_nat nat_rect]. destruct p; try contradiction; repeat split; simpl; lia.
-  - destruct (IH p Hp) as (H1 & H2 & H3). cbn [Pos.shiftl_nat nat_rect] in *.
-    repeat split; cbn [pos_odd pos_tz]; try assumption; try lia.
-    rewrite Pos2Z.inj_xO, H3, Nat2Z.inj_succ, Z.pow_succ_r by lia. lia.
-Qed.
-
-Lemma canon_shift : forall m e, Z.odd m = true -> 0 <= e -> canon (m * 2 ^ e) 0 = Fin m e.
-Proof.
-  intros m e Hm He. destruct m as [|p|p]; [discriminate| |].
-  - assert (Hp : podd p) by (destruct p; simpl in *; try discriminate; exact I).
-    destruct (pos_shift_canon (Z.to_nat e) p Hp) as (H1 & H2 & H3). rewrite Z2Nat.id in * by lia.
-    rewrite <- H3. cbn [canon]. rewrite H1, H2. f_equal.
-  - assert (Hp : podd p) by (destruct p; simpl in *; try discriminate; exact I).
-    destruct (pos_shift_canon (Z.to_nat e) p Hp) as (H1 & H2 & H3). rewrite Z2Nat.id in * by lia.
-    replace (Z.neg p * 2 ^ e) with (- (Z.pos p * 2 ^ e)) by lia. rewrite <- H3. cbn [Z.opp canon].
-    rewrite H1, H2. f_equal.
-Qed.
-
 (* a rounding function and a formatter that satisfy both hypotheses (they carry the binary exponent
    in the decimal exponent field; strconv's real ones are compared with the code by the harness) *)
 Definition ex_rnd (m e : Z) : fval := if e <? 0 then Fin m e else canon m 0.
@@ -99,7 +74,7 @@ Proof.
   destruct (0 <=? e) eqn:E; [|discriminate]. inversion Hz; subst. unfold ex_rnd. cbn [Z.ltb Z.compare].
   simpl in Hc. destruct (m =? 0) eqn:Em.
   - assert (m = 0) by lia. assert (e = 0) by lia. subst. reflexivity.
-  - apply canon_shift; [assumption|lia].
+  - apply (canon_shift m e 0); [assumption|lia].
 Qed.
 
 Lemma print_exp_numeral : forall m e, e < 0 -> parse_exact (print_int m ++ 101 :: print_int e) = Some (m, e).
@@ -149,7 +124,7 @@ Example ex_cal_trivial :
   /\ forall t, os_time of_civil (os_date_t to_civil t) = t.
 Proof. split; [reflexivity|]. intros t. now apply time_date_roundtrip_lemma. Qed.
 
-(* ... and the Gregorian calendar of the case evaluator meets it on sample points *)
+(* ... and the Gregorian calendar of the case evaluator meets it everywhere (Text/CalFacts.v); sample points *)
 Example ex_cal_gregorian :
   forallb (fun t => os_time unix_of_civil (os_date_t civil_of_unix t) =? t)
           [0; -1; 951782400; 951868799; -1893456000; 1893455999; 68169599; 68169600] = true.
